@@ -191,7 +191,10 @@ pub fn gen_modules(p: &mut Prng, arch: Arch, n: usize, pres_choice: Option<Pres>
     let mut mods = Vec::new();
     let mut cur = region;
     for _ in 0..n {
-        let size = 0x100 + p.below(0x4000);
+        // now and then a module with an empty range (a mapping of length zero): it contains no
+        // address but is registered, counted and removable like any other
+        let empty = p.chance(1, 12);
+        let size = if empty { 0 } else { 0x100 + p.below(0x4000) };
         let Some(end) = cur.checked_add(size) else { break };
         let start = cur;
         let base_avma = match p.below(10) {
@@ -229,6 +232,11 @@ pub fn gen_modules(p: &mut Prng, arch: Arch, n: usize, pres_choice: Option<Pres>
             n_cies: 1 + p.below(5) as u8,
         });
         cur = end;
+        if empty {
+            // keep range starts distinct
+            let Some(c) = cur.checked_add(1 + p.below(0x40)) else { break };
+            cur = c;
+        }
         if !p.chance(1, 3) {
             let Some(c) = cur.checked_add(p.below(0x2000)) else { break };
             cur = c;
